@@ -591,6 +591,36 @@ def sequence_subclasses_are_walked_by_their_items(col):
                 col.violation('C14/sequence-subclass-instance-not-walked-by-its-items:delete', "delete(.., 'rows.*.k') over a %s: %r ; rows now %r" % (kind, got, list(t['rows'])), None)
 
 
+class _TagSet(set):
+    pass
+
+
+class _FrozenTags(frozenset):
+    pass
+
+
+class _Queue(__import__('collections').deque):
+    pass
+
+
+def iterable_subclasses_are_walked_by_their_items(col):
+    """the same for instances of subclasses of the other builtin iterables - set, frozenset, deque: their children are their items, as for
+    the plain set / frozenset / deque holding the same items"""
+    import collections
+    for kind, wrap, plain in (('set-subclass', _TagSet, set), ('frozenset-subclass', _FrozenTags, frozenset), ('deque-subclass', _Queue, collections.deque)):
+        items = [3] if 'set' in kind else [{'k': 1}, {'k': 2}]
+        for desc, spec in (("'*'", '*'), ('T.*', T.__star__()), ("'**'", '**'), ("'v.*' below a dict", None)):
+            if spec is None:
+                got, want = call(G, {'v': wrap(items)}, 'v.*'), call(G, {'v': plain(items)}, 'v.*')
+            else:
+                got, want = call(G, wrap(items), spec), call(G, plain(items), spec)
+            col.case(('iterable-subclass', kind, desc), True)
+            col.count('wildcard_evaluations')
+            if got.ok != want.ok or (got.ok and repr(got.value).replace(wrap.__name__, plain.__name__) != repr(want.value)):
+                col.violation('C14/iterable-subclass-instance-with-a-dict-not-walked-by-its-items', '%s on a %s holding %r: %r ; on the plain %s: %r'
+                              % (desc, kind, items, got, plain.__name__, want), None)
+
+
 def _with_attr(obj):
     obj.label = 'an attribute next to the items'
     return obj
@@ -871,6 +901,7 @@ def run(ctx):
             special_iterables(col, counter)
             children_created_on_access(col, counter)
             sequence_subclasses_are_walked_by_their_items(col)
+            iterable_subclasses_are_walked_by_their_items(col)
         for i in range(ctx.n(25000, 100000)):
             eval_case(col, counter, rng)
         for i in range(ctx.n(2500, 10000)):
